@@ -6,6 +6,8 @@ use std::collections::BTreeMap;
 
 pub mod common;
 pub mod c14;
+pub mod c15;
+pub mod c16;
 pub mod c18;
 pub mod selfcheck;
 
@@ -87,7 +89,7 @@ pub trait Property: Sync + Send {
 }
 
 pub fn all() -> Vec<Box<dyn Property>> {
-    vec![Box::new(selfcheck::SelfCheck), Box::new(c18::C18), Box::new(c14::C14)]
+    vec![Box::new(selfcheck::SelfCheck), Box::new(c18::C18), Box::new(c14::C14), Box::new(c15::C15), Box::new(c16::C16)]
 }
 
 pub fn by_id(id: &str) -> Option<Box<dyn Property>> {
